@@ -29,7 +29,7 @@ void vr_get(const char *name, void *dst, size_t elem, size_t n) {
 				char *end; long long v;
 				while (*q == ' ') q++;
 				if (q >= eol) break;
-				v = strtoll(q, &end, 10);
+				v = (*q == '-') ? strtoll(q, &end, 10) : (long long)strtoull(q, &end, 10);
 				if (end == q) break;
 				q = end;
 				switch (elem) {
